@@ -223,6 +223,69 @@ func checkReported(run *tbRun, prog *SX) string {
 	return ""
 }
 
+// D2 shape of a recording: a finished, kept "action" group that encloses an unfinished group and
+// a discarded group (an action attempt treated as skipped although it consumed bits of a
+// rejected draw)
+func d2Shape(rec rapid.VerifRec) bool {
+	for i, g := range rec.Groups {
+		if g.Label != "action" || g.End < 0 || g.Discard {
+			continue
+		}
+		unfinished, discarded := false, false
+		for _, h := range rec.Groups[i+1:] {
+			if h.Begin >= g.End && !(h.Begin == g.End && h.End == -1) {
+				break
+			}
+			if h.End < 0 {
+				unfinished = true
+			}
+			if h.Discard {
+				discarded = true
+			}
+		}
+		if unfinished && discarded {
+			return true
+		}
+	}
+	return false
+}
+
+// does any test case this run executed (PRNG-driven reproduction or shrink candidate) record the D2 shape
+func runHasD2Shape(run *tbRun, prog *SX, seed uint64) bool {
+	record := func(s *rapid.VerifStream) bool {
+		in := newInterp(prog, false)
+		runTB(func() { rapid.VerifCheckOnce(rapid.VerifNewT(newRecTB("d2"), s, false), in.prop) })
+		return d2Shape(s.Rec())
+	}
+	if seed != 0 && record(rapid.VerifRandStream(seed, true)) {
+		return true
+	}
+	seen := map[string]bool{}
+	for _, inv := range run.in.invs {
+		if !inv.isBuf {
+			continue
+		}
+		k := joinU64(inv.words)
+		if seen[k] {
+			continue
+		}
+		seen[k] = true
+		if record(rapid.VerifBufStream(inv.words, true)) {
+			return true
+		}
+	}
+	return false
+}
+
+func reportedSeed(verdict string) uint64 {
+	if i := strings.LastIndex(verdict, ":seed="); i >= 0 {
+		var s uint64
+		fmt.Sscan(verdict[i+6:], &s)
+		return s
+	}
+	return 0
+}
+
 func flagsStr(fl rapid.VerifFlags) map[string]string {
 	return map[string]string{
 		"checks": fmt.Sprint(fl.Checks), "seed": fmt.Sprint(fl.Seed), "shrinktime": fl.ShrinkTime.String(),
@@ -308,6 +371,7 @@ func init() {
 			if what := checkReported(run, prog); what != "" {
 				p := flagsStr(fl)
 				p["prog"] = prog.String()
+				p["d2shape"] = fmt.Sprint(runHasD2Shape(run, prog, reportedSeed(run.verdict)))
 				m.violate(violation{"C01", "reported", what, p})
 			}
 		}
